@@ -1,5 +1,6 @@
 // Interpreter: applies an operation list to the real world and to the model and compares.
 #pragma once
+#include <algorithm>
 #include <cstdint>
 #include <cstdio>
 #include <functional>
@@ -76,6 +77,7 @@ struct CaseResult {
   uint32_t case_mask = 0;
 };
 
+inline std::string visible(const std::string& t) { std::string o; for (char c : t) { if (c == '\n') o += " / "; else o += c; } return o; }
 struct OpTrace { bool applicable = false; CallResult got; int forbid_eid = -1; std::vector<int> forbid_nested_eids; int created_eid = -1; };   // nested: every forbid hit by a call made inside a side effect or a scoped block
 
 struct ParsedLoc { size_t pos; std::string file; unsigned long line; };
@@ -626,35 +628,90 @@ class Interp {
     // traces
     {
       std::vector<bool> used(real::g_log.traces.size(), false);
-      for (auto& xt : x.traces) {
-        bool f = false;
+      // which record belongs to which accepted call: a maximum matching over "could be this call's record" (tracer at
+      // the start or at the end of the call, handling expectation, its text). A first-fit assignment is wrong when two
+      // nested calls handled by the same expectation each construct a tracer: the first call's alternative tracer is
+      // the second call's only one.
+      size_t nx = x.traces.size(), nr = real::g_log.traces.size();
+      auto content = [&](const XTrace& xt, const RTrace& t, std::string& why) {
+        bool good = true;
+        for (size_t a = 0; a < xt.args.size(); ++a)
+          if (t.text.find(arg_text(xt.func, static_cast<int>(a), xt.args[a])) == std::string::npos) { good = false; why = "argument " + std::to_string(a + 1) + " missing"; }
+        for (size_t a = 0; a + 1 < xt.args.size(); ++a) {
+          size_t p1 = t.text.find("_" + std::to_string(a + 1) + " =="), p2 = t.text.find("_" + std::to_string(a + 2) + " ==");
+          if (p1 == std::string::npos || p2 == std::string::npos || p1 > p2) { good = false; why = "arguments not in positional order"; }
+        }
+        if (xt.res.kind == R_RETURNED) {
+          if (xt.func != F_v && t.text.find(" -> " + std::to_string(xt.res.value)) == std::string::npos) { good = false; why = "returned value missing"; }
+          if (t.text.find("threw") != std::string::npos) { good = false; why = "claims an exception"; }
+        } else if (xt.res.kind == R_THROWN) {
+          if (t.text.find("threw exception: what() = thrown:" + std::to_string(xt.res.value)) == std::string::npos) { good = false; why = "what() of the thrown exception missing"; }
+        } else {
+          if (t.text.find("threw unknown exception") == std::string::npos) { good = false; why = "unknown exception not noted"; }
+        }
+        return good;
+      };
+      std::vector<std::vector<size_t>> compat(nx);
+      for (size_t k = 0; k < nx; ++k) {
+        auto& xt = x.traces[k];
         const MExp& e = m.E.at(xt.eid);
-        for (size_t i = 0; i < used.size() && !f; ++i) {
+        for (size_t i = 0; i < nr; ++i) {
           auto& t = real::g_log.traces[i];
-          if (used[i] || (t.tracer != xt.tracer && t.tracer != xt.alt_tracer)) continue;
+          if (t.tracer != xt.tracer && t.tracer != xt.alt_tracer) continue;
           if (eid_at(t.file, t.line) != xt.eid && !(e.saturated && !e.alive)) continue;
           if (t.text.find(exp_text_piece(e)) == std::string::npos) continue;
+          compat[k].push_back(i);
+        }
+        // preference: right content before wrong content (a wrong record is reported against the call it is paired
+        // with only when no pairing with right contents exists), the tracer of the call's start before the other one
+        std::stable_sort(compat[k].begin(), compat[k].end(), [&](size_t a, size_t b) {
+          std::string w;
+          int ra = (content(xt, real::g_log.traces[a], w) ? 0 : 2) + (real::g_log.traces[a].tracer == xt.tracer ? 0 : 1);
+          int rb = (content(xt, real::g_log.traces[b], w) ? 0 : 2) + (real::g_log.traces[b].tracer == xt.tracer ? 0 : 1);
+          return ra < rb;
+        });
+      }
+      std::vector<std::vector<size_t>> loose = compat;
+      for (size_t k = 0; k < nx; ++k) {   // first attempt: records with the right contents only
+        std::string w;
+        compat[k].erase(std::remove_if(compat[k].begin(), compat[k].end(), [&](size_t i) { return !content(x.traces[k], real::g_log.traces[i], w); }), compat[k].end());
+      }
+      std::vector<long> rec_of(nx, -1), call_of(nr, -1);
+      std::function<bool(size_t, std::vector<bool>&)> augment = [&](size_t k, std::vector<bool>& seen) {
+        for (size_t i : compat[k]) {
+          if (seen[i]) continue;
+          seen[i] = true;
+          if (call_of[i] < 0 || augment(static_cast<size_t>(call_of[i]), seen)) { call_of[i] = static_cast<long>(k); rec_of[k] = static_cast<long>(i); return true; }
+        }
+        return false;
+      };
+      auto match_all = [&] {
+        std::fill(rec_of.begin(), rec_of.end(), -1); std::fill(call_of.begin(), call_of.end(), -1);
+        for (size_t k = 0; k < nx; ++k) if (!x.traces[k].optional_) { std::vector<bool> seen(nr, false); augment(k, seen); }
+        for (size_t k = 0; k < nx; ++k) if (x.traces[k].optional_) { std::vector<bool> seen(nr, false); augment(k, seen); }
+        for (size_t k = 0; k < nx; ++k) if (!x.traces[k].optional_ && rec_of[k] < 0) return false;
+        return true;
+      };
+      if (!match_all()) { compat = loose; match_all(); }
+      for (size_t k = 0; k < nx; ++k) {
+        auto& xt = x.traces[k];
+        bool f = false;
+        for (size_t i = 0; i < used.size() && !f; ++i) {
+          auto& t = real::g_log.traces[i];
+          if (rec_of[k] != static_cast<long>(i)) continue;
           used[i] = true; f = true;
-          bool good = true;
           std::string why;
-          for (size_t a = 0; a < xt.args.size(); ++a)
-            if (t.text.find(arg_text(xt.func, static_cast<int>(a), xt.args[a])) == std::string::npos) { good = false; why = "argument " + std::to_string(a + 1) + " missing"; }
-          for (size_t a = 0; a + 1 < xt.args.size(); ++a) {
-            size_t p1 = t.text.find("_" + std::to_string(a + 1) + " =="), p2 = t.text.find("_" + std::to_string(a + 2) + " ==");
-            if (p1 == std::string::npos || p2 == std::string::npos || p1 > p2) { good = false; why = "arguments not in positional order"; }
-          }
-          if (xt.res.kind == R_RETURNED) {
-            if (xt.func != F_v && t.text.find(" -> " + std::to_string(xt.res.value)) == std::string::npos) { good = false; why = "returned value missing"; }
-            if (t.text.find("threw") != std::string::npos) { good = false; why = "claims an exception"; }
-          } else if (xt.res.kind == R_THROWN) {
-            if (t.text.find("threw exception: what() = thrown:" + std::to_string(xt.res.value)) == std::string::npos) { good = false; why = "what() of the thrown exception missing"; }
-          } else {
-            if (t.text.find("threw unknown exception") == std::string::npos) { good = false; why = "unknown exception not noted"; }
-          }
+          bool good = content(xt, t, why);
           if (!good) mismatch(CAT_TRACE, "trace record of call handled by " + std::to_string(xt.eid) + ": " + why + "\n--- text ---\n" + t.text);
         }
         if (!f && xt.optional_) { res.tolerant++; continue; }
-        if (!f) mismatch(CAT_TRACE, "no trace record for accepted call handled by " + std::to_string(xt.eid) + " on tracer " + std::to_string(xt.tracer) + " (" + std::to_string(real::g_log.traces.size()) + " records)");
+        if (!f) {
+          std::string all;
+          for (auto& t : real::g_log.traces) all += "\n  [tracer " + std::to_string(t.tracer) + ", expectation " + std::to_string(eid_at(t.file, t.line)) + "] " + visible(t.text).substr(0, 160);
+          all += "\n  expected:";
+          for (auto& q : x.traces) all += " [tracer " + std::to_string(q.tracer) + (q.alt_tracer >= 0 ? "|" + std::to_string(q.alt_tracer) : "") + ", expectation " + std::to_string(q.eid) + (q.optional_ ? ", optional" : "") + "]";
+          mismatch(CAT_TRACE, "no trace record for accepted call handled by " + std::to_string(xt.eid) + " on tracer " + std::to_string(xt.tracer) + (xt.alt_tracer >= 0 ? " (or " + std::to_string(xt.alt_tracer) + ")" : "") + " (" + std::to_string(real::g_log.traces.size()) + " records)" + all);
+        }
       }
       size_t extra = 0;
       for (size_t i = 0; i < used.size(); ++i) if (!used[i]) {
